@@ -26,6 +26,9 @@ property oracle on the real code's outputs.  Streams:
       over one passive listener (transfer_trace) vs the real dispatcher, and vs the plain-Python oracle
       "REST applies to exactly the next transfer command".
   (f) REST n + STOR/APPE on a MISSING file on all three backends: 451, nothing created, session goes on.
+  (g) histories of uploads over SIBLING names (x.csv / x.json / x.part / x / x.tar.gz / ...), by one session
+      after the other and by two sessions at once; after every completion reply the whole directory is
+      read from the backend: every acknowledged file still has its bytes, nothing else exists.
 
 Smoke test of the session driver:
     PYTHONPATH=/repo/src:. /venv/bin/python -c "from harness.props import c01; print(c01.smoke())"
@@ -65,7 +68,9 @@ LEVEL_TEXT = (
     "C01_network_reads_conforming, C01_file_reads_conforming, C01_early_stop_impossible, C01_reply_after_close, "
     "C01_visible_after_226, C01_later_retr_sees_new_content, C01_rest_applies_to_next_transfer, C01_offset_applies_to_next_command_only, "
     "C01_second_transfer_starts_at_0, C01_back_to_back (a restart offset is served to exactly the next transfer command), "
-    "C01_stor_missing_file (REST n + STOR/APPE on a missing file: 451, nothing created), C01_refused_transfer_consumes_offset "
+    "C01_stor_missing_file (REST n + STOR/APPE on a missing file: 451, nothing created), C01_upload_touches_its_own_file_only, "
+    "C01_acknowledged_file_survives, C01_overlapping_uploads_independent (several files, sibling names, uploads in flight at once), "
+    "C01_refused_transfer_consumes_offset "
     "(a transfer refused before its worker runs consumes the offset too), C01_size_visible_after_226_whoever_looked (stat / "
     "listing steps inserted anywhere in the upload's statement sequence: the size reported after the 226 is the new one), the write_at lemmas, and the closed obligations "
     "C01_source_facts / C01_verb_modes / C01_source_programs on the regenerated facts; C01_model_is_program_denotation, "
@@ -106,6 +111,7 @@ ASSUMPTIONS = [
 MODES = {"wb": 0, "ab": 1, "r+b": 2, "rb": 3}
 VERB_MODE = {"STOR": "wb", "APPE": "ab"}
 TMP_ROOT = core.VERIF / "build" / "tmp"
+VIRTUAL_BUDGET = 10**6  # virtual seconds one session case may take before it counts as hung
 BIG = 40000  # "as much as there is": larger than any payload used here (lengths are unary nat in the model)
 
 
@@ -397,7 +403,13 @@ def run_case(case):
         base = TMP_ROOT / f"c01-{os.getpid()}-{random.getrandbits(48):012x}"
         base.mkdir()
     try:
-        return simnet.run(lambda net: _run_case(net, case, base), wall_timeout=120)
+        # a hang of the implementation is an observation: the virtual-time budget ends the case
+        return simnet.run(lambda net: asyncio.wait_for(_run_case(net, case, base), VIRTUAL_BUDGET), wall_timeout=120)
+    except BaseException as e:  # TimeoutError (virtual or wall budget), or anything the driver itself could not contain
+        if isinstance(e, (KeyboardInterrupt, SystemExit)):
+            raise
+        return {"stored": None, "received": None, "pre": [], "open_transports": 0, "seg_up": [], "seg_down": [],
+                "error": "no verdict within the budget (" + type(e).__name__ + ":" + str(e)[:60] + ")"}
     finally:
         if base is not None:
             shutil.rmtree(base, ignore_errors=True)
@@ -577,6 +589,9 @@ def run_case_tcp(case):
         base.mkdir()
     try:
         return asyncio.run(asyncio.wait_for(_run_case(RealNet(), case, base), 60))
+    except Exception as e:
+        return {"stored": None, "received": None, "pre": [], "open_transports": 0, "seg_up": [], "seg_down": [],
+                "error": "no verdict within the budget (" + type(e).__name__ + ":" + str(e)[:60] + ")"}
     finally:
         if base is not None:
             shutil.rmtree(base, ignore_errors=True)
@@ -975,11 +990,23 @@ def gen_session_cases(ctx, scale):
         {"client_read": 30, "client_write": 30},
         {"user_read": 25, "user_write": 50, "conn_read": 100, "conn_write": 100},
         {"server_read": 7, "client_write": 1000},
+        # boundary values: 0 means "unlimited" everywhere in aioftp (Throttle.wait sleeps only for a limit > 0), 1 is the
+        # smallest real limit (every block is bigger than the limit) -- each scope, both directions, alone and mixed
+        {"server_read": 0, "server_write": 0},
+        {"conn_read": 0, "conn_write": 0},
+        {"user_read": 0, "user_write": 0},
+        {"client_read": 0, "client_write": 0},
+        {"server_read": 0, "user_write": 0, "conn_read": 50, "conn_write": 50},
+        {"server_write": 0, "user_read": 0, "conn_read": 0, "client_read": 0, "client_write": 0},
+        {"server_read": 1, "server_write": 1},
+        {"user_read": 1, "conn_write": 1},
     ]
     for thr in throttles:
         for verb in ("STOR", "APPE", "RETR"):
             for bs in (3, 64):
                 payload = bytes(rng.randrange(256) for _ in range(rng.choice([bs + 1, 3 * bs + 1])))
+                if 1 in thr.values():
+                    payload = payload[: bs + 2]  # one byte per virtual second
                 old = bytes(rng.randrange(256) for _ in range(10))
                 off = rng.choice([0, 4, 10, 13])
                 add(verb=verb, payload=payload, offset=off, old=old, block_size=bs, throttle=thr, passive=next(toggle),
@@ -1460,6 +1487,204 @@ def missing_restart_stream(ctx, xcheck):
     ctx.count("rest_plus_upload_on_missing_file", len(cases))
 
 
+# --------------------------------------------------------------------------------------------
+# (g) several files: sibling names, sequential and overlapping uploads
+NAME_FAMILY = ["x.csv", "x.json", "x.part", "x", "x.tar.gz", "x.tar", "y.csv", "x.csv.part"]
+
+
+def _backend_files(store, backend, base):
+    """name -> bytes of EVERYTHING in the served directory, read from the backend directly"""
+    if backend == "memory":
+        root = store._mem().get_node(pathlib.PurePosixPath("/"))
+        return {n.name: (n.content.getvalue() if n.type == "file" else None) for n in root.content}
+    return {p.name: (p.read_bytes() if p.is_file() else None) for p in base.iterdir()}
+
+
+async def _files_session(net, backend, base, init, steps):
+    """steps: ("up", session, verb, name, offset, payload) | ("pair", (verb, name, payload), (verb, name, payload), schedule, first_to_finish)
+    returns a list of observations: after every completion reply the whole backend directory"""
+    server = aioftp.Server([aioftp.User(base_path=base if base is not None else "/", home_path="/")], path_io_factory=BACKENDS[backend], block_size=3)
+    await server.start("127.0.0.1", 2121)
+    store = Store(backend, server, base)
+    for name, content in init.items():
+        store.put(name, content)
+    cl = []
+    for _ in range(2):
+        c = aioftp.Client(passive_commands=("epsv",))
+        await c.connect("127.0.0.1", 2121)
+        await c.login()
+        cl.append(c)
+    obs = []
+
+    def snap(tag, flux=()):
+        files = _backend_files(store, backend, base)
+        obs.append((tag, {k: v for k, v in files.items() if k not in flux}))
+
+    for st in steps:
+        try:
+            if st[0] == "up":
+                _, who, verb, name, off, payload = st
+                factory = cl[who].upload_stream if verb == "STOR" else cl[who].append_stream
+                async with factory(name, offset=off) as stream:
+                    for i in range(0, len(payload), 4):
+                        await stream.write(payload[i : i + 4])
+                snap("226")
+            else:
+                _, a, b, sched, first = st
+                streams = []
+                for who, (verb, name, payload) in enumerate((a, b)):
+                    factory = cl[who].upload_stream if verb == "STOR" else cl[who].append_stream
+                    streams.append(await factory(name))
+                left = [list(a[2][i : i + 2] for i in range(0, len(a[2]), 2)), list(b[2][i : i + 2] for i in range(0, len(b[2]), 2))]
+                for turn in list(sched) + [0] * len(left[0]) + [1] * len(left[1]):
+                    if left[turn]:
+                        await streams[turn].write(left[turn].pop(0))
+                        await asyncio.sleep(0.01)  # let the server take the block
+                order = [first, 1 - first]
+                await streams[order[0]].finish()
+                snap("226", flux=((a, b)[order[1]][1],))  # the other upload is still in flight: its name is in flux
+                await streams[order[1]].finish()
+                snap("226")
+        except Exception as e:  # an exception of the implementation is an observation
+            obs.append(("exception", type(e).__name__ + ":" + str(e)[:70]))
+            snap("after-exception")
+    for c in cl:
+        try:
+            await c.quit()
+        except Exception:
+            c.close()
+    await server.close()
+    return obs
+
+
+def files_expected(init, steps):
+    """plain-Python oracle: the directory after every completion reply (None for a name in flux)"""
+    fsd = dict(init)
+    out = []
+    for st in steps:
+        if st[0] == "up":
+            _, _who, verb, name, off, payload = st
+            fsd[name] = py_spec_store(verb, off, payload, fsd.get(name))
+            out.append(dict(fsd))
+        else:
+            _, a, b, _sched, first = st
+            order = [(a, b)[first], (a, b)[1 - first]]
+            fsd[order[0][1]] = py_spec_store(order[0][0], 0, order[0][2], fsd.get(order[0][1]))
+            out.append({k: v for k, v in fsd.items() if k != order[1][1]})
+            fsd[order[1][1]] = py_spec_store(order[1][0], 0, order[1][2], fsd.get(order[1][1]))
+            out.append(dict(fsd))
+    return out
+
+
+def run_files_history(backend, init, steps):
+    base = None
+    if backend != "memory":
+        TMP_ROOT.mkdir(parents=True, exist_ok=True)
+        base = TMP_ROOT / f"c01-{os.getpid()}-{random.getrandbits(48):012x}"
+        base.mkdir()
+    try:
+        return simnet.run(lambda net: asyncio.wait_for(_files_session(net, backend, base, init, steps), VIRTUAL_BUDGET), wall_timeout=60)
+    except BaseException as e:
+        if isinstance(e, (KeyboardInterrupt, SystemExit)):
+            raise
+        return [("exception", "no verdict within the budget (" + type(e).__name__ + ":" + str(e)[:60] + ")")]
+    finally:
+        if base is not None:
+            shutil.rmtree(base, ignore_errors=True)
+
+
+def files_verdict(init, steps, obs):
+    want = files_expected(init, steps)
+    got = [o[1] for o in obs if o[0] == "226"]
+    ok = got == want and not any(o[0] == "exception" for o in obs)
+    return ok, got, want
+
+
+def _hexfs(d):
+    return {k: (v.hex() if isinstance(v, bytes) else v) for k, v in sorted(d.items())}
+
+
+def files_stream(ctx, xcheck, scale):
+    """(g) histories of uploads over a family of SIBLING names (same stem, different last suffix, a stored
+    `<stem>.part`, names that extend each other), by one session after the other and by two sessions at
+    once; after every completion reply the whole directory is read from the backend: every file
+    acknowledged so far still has its bytes, the new one has exactly its own, nothing else exists"""
+    rng = ctx.rng
+    rb = lambda lo, hi: bytes(rng.randrange(256) for _ in range(rng.randint(lo, hi)))
+    hist = []
+    fixed = [
+        ({"x.part": b"kept"}, [("up", 0, "STOR", "x.csv", 0, b"csv-bytes")]),
+        ({}, [("up", 0, "STOR", "x.part", 0, b"acknowledged"), ("up", 1, "STOR", "x.json", 0, b"{}"), ("up", 0, "STOR", "x", 0, b"plain")]),
+        ({}, [("pair", ("STOR", "x.csv", b"aaaaaaaaaa"), ("STOR", "x.json", b"bbbbbbbbbbbb"), [0, 1, 0, 1, 1, 0], 0)]),
+        ({"x.csv": b"old", "x.tar": b"tar"}, [("pair", ("STOR", "x.tar.gz", b"1234567"), ("APPE", "x.tar", b"89"), [1, 0, 0], 1), ("up", 0, "STOR", "x.csv", 2, b"Z")]),
+    ]
+    for init, steps in fixed:
+        hist.append((init, steps))
+    for _ in range(26 * scale):
+        init = {n: rb(0, 8) for n in rng.sample(NAME_FAMILY, rng.randint(0, 4))}
+        steps, known = [], set(init)
+        for _ in range(rng.randint(1, 4)):
+            if rng.random() < 0.6:
+                name = rng.choice(NAME_FAMILY)
+                verb = rng.choice(["STOR", "STOR", "APPE"])
+                off = rng.choice([0, 0, 1, 5]) if name in known else 0  # a restart offset needs an existing target
+                steps.append(("up", rng.randrange(2), verb, name, off, rb(0, 10)))
+                known.add(name)
+            else:
+                na, nb = rng.sample(NAME_FAMILY, 2)
+                steps.append(("pair", (rng.choice(["STOR", "STOR", "APPE"]), na, rb(0, 10)), (rng.choice(["STOR", "APPE"]), nb, rb(0, 10)),
+                              [rng.randrange(2) for _ in range(rng.randint(0, 8))], rng.randrange(2)))
+                known.update((na, nb))
+        hist.append((init, steps))
+    idx = {n: i for i, n in enumerate(NAME_FAMILY)}
+    enc_fs = lambda d: [[idx[k], v] for k, v in d.items()]
+    enc_up = lambda verb, name, off, payload: [idx[name], MODES[VERB_MODE[verb]], off, payload]
+    # model: the history as sequential uploads (fn 16); each pair additionally through fs_overlap (fn 17)
+    seq_calls, pair_calls = [], []
+    for init, steps in hist:
+        ups = []
+        for st in steps:
+            if st[0] == "up":
+                ups.append(enc_up(st[2], st[3], st[4], st[5]))
+            else:
+                order = [(st[1], st[2])[st[4]], (st[1], st[2])[1 - st[4]]]
+                ups += [enc_up(o[0], o[1], 0, o[2]) for o in order]
+        seq_calls.append((16, [enc_fs(init), ups]))
+    mo = ctx.model(seq_calls)
+    n_pairs = n_sibling = 0
+    for k, ((init, steps), m) in enumerate(zip(hist, mo)):
+        backend = "memory" if k % 3 else "pathio"
+        ctx.case(("files", backend, repr(sorted(_hexfs(init).items())), repr(steps)))
+        ctx.traces_impl += 1
+        obs = run_files_history(backend, init, steps)
+        ok, got, want = files_verdict(init, steps, obs)
+        rep = {"key": "c01-acknowledged-file-lost-or-corrupted", "backend": backend, "init": _hexfs(init),
+               "steps": [[x.hex() if isinstance(x, bytes) else ([y.hex() if isinstance(y, bytes) else y for y in x] if isinstance(x, tuple) else x) for x in st] for st in steps]}
+        final_impl = got[-1] if got else None
+        model_final = None
+        if m[0] == 0:
+            model_final = {n: bytes(e[0]) for n, e in zip(NAME_FAMILY, m[1]) if e}
+        if final_impl != model_final:
+            ctx.disagree("files", rep, None if model_final is None else _hexfs(model_final), None if final_impl is None else _hexfs(final_impl))
+        if not ok:
+            bad = next((i for i, (g, w) in enumerate(zip(got, want)) if g != w), min(len(got), len(want)))
+            ctx.violation(
+                "after a completion reply a file acknowledged earlier (or the new one) does not hold its bytes, or a stray file exists",
+                dict(rep, first_bad_reply=bad, directory=[_hexfs(g) for g in got[bad : bad + 1]], expected=[_hexfs(w) for w in want[bad : bad + 1]],
+                     exceptions=[o[1] for o in obs if o[0] == "exception"]),
+            )
+        n_pairs += sum(1 for st in steps if st[0] == "pair")
+        names = [st[3] if st[0] == "up" else None for st in steps] + [x for st in steps if st[0] == "pair" for x in (st[1][1], st[2][1])] + list(init)
+        stems = [n.rsplit(".", 1)[0] for n in names if n and "." in n]
+        if len(set(stems)) < len(stems):
+            n_sibling += 1
+        if len(xcheck) < 99:
+            xcheck.append((16, seq_calls[k][1], m))
+    ctx.count("file_histories", len(hist))
+    ctx.count("file_histories_overlapping_pairs", n_pairs)
+    ctx.count("file_histories_with_names_sharing_a_stem", n_sibling)
+
+
 def correspondence(ctx, scale=None):
     thorough = ctx.tier == "thorough"
     scale = scale or (8 if thorough else 1)
@@ -1476,7 +1701,9 @@ def correspondence(ctx, scale=None):
         "connection) through ONE passive listener, transfers anywhere and back to back (10 fixed + 50 random) vs transfer_trace and the "
         "plain-Python offset oracle; every session case of (d) additionally draws who stats + lists (MLST, MLSD, LIST) the target BEFORE "
         "the transfer (nobody / the transferring session / another session / both), and both sessions do so AFTER the completion reply; (f) REST n + STOR/APPE on a missing file: 3 backends x 2 verbs x offsets "
-        "(1, 5, 0) x 3 payloads; (b2) "
+        "(1, 5, 0) x 3 payloads; (g) 4 fixed + 26 random upload histories over 8 sibling names (same stem, different last suffix, a stored <stem>.part), "
+        "single uploads and overlapping pairs with random write interleavings, memory and PathIO, whole directory compared after every 226; "
+        "throttle configurations include the limits 0 (unlimited) and 1 in every scope; (b2) "
         "timed read traces: 0-6 segments at non-decreasing instants (gaps 0..1000) x scripted wait delays (0..5000) x block size, real "
         "ThrottleStreamIO.read on the virtual clock vs timed_trace (blocks AND instants). A case "
         "is non-trivial when its full input tuple is distinct (hash); every session case moves real bytes through the real code."
@@ -1486,6 +1713,7 @@ def correspondence(ctx, scale=None):
     session_stream(ctx, xcheck, scale, reps=6 if thorough else 1)
     offset_stream(ctx, xcheck)
     missing_restart_stream(ctx, xcheck)
+    files_stream(ctx, xcheck, scale)
     ok, out = core.vm_crosscheck(EXTRACT, xcheck[:100])
     ctx.extra["vm_compute_crosscheck"] = {"cases": len(xcheck[:100]), "agree": ok}
     if not ok:
@@ -1510,6 +1738,21 @@ def search(ctx):
 def replay(ctx, data):
     """re-run one recorded case on the implementation; True when the property holds on it"""
     r = data.get("replay", {})
+    if "steps" in r and "init" in r:
+        unhex = lambda x: bytes.fromhex(x) if isinstance(x, str) and x != "" and all(c in "0123456789abcdef" for c in x) and len(x) % 2 == 0 else (b"" if x == "" else x)
+        init = {k: bytes.fromhex(v) for k, v in r["init"].items()}
+        steps = []
+        for st in r["steps"]:
+            if st[0] == "up":
+                steps.append(("up", st[1], st[2], st[3], st[4], bytes.fromhex(st[5])))
+            else:
+                steps.append(("pair", (st[1][0], st[1][1], bytes.fromhex(st[1][2])), (st[2][0], st[2][1], bytes.fromhex(st[2][2])), list(st[3]), st[4]))
+        obs = run_files_history(r["backend"], init, steps)
+        ok, got, want = files_verdict(init, steps, obs)
+        print("steps:", steps)
+        print("observed:", [_hexfs(g) for g in got], [o for o in obs if o[0] == "exception"])
+        print("expected:", [_hexfs(w) for w in want])
+        return ok
     if "seq" in r:
         seq = [tuple(x) for x in r["seq"]]
         obs = run_offset_seq(seq)
